@@ -76,7 +76,7 @@ class TG:
 
 
 def fmt(edges):
-    return '[' + ', '.join(f'{u}->{v}' for u, v, _ in edges) + ']'
+    return '[' + ', '.join(f'{e[0]}->{e[1]}' for e in edges) + ']'
 
 
 # ------------------------------------------------------------------ oracles
